@@ -13,9 +13,11 @@ import (
 	"fmt"
 	mrand "math/rand"
 	"os"
+	"reflect"
 	"sort"
 	"sync"
 	"testing"
+	"unsafe"
 )
 
 type zzvSessState struct {
@@ -65,10 +67,49 @@ func zzvNewPair(base, maxc uint64, rng *mrand.Rand) *zzvPair {
 	p.k["I"] = DeriveSessionKey(secret, 7, ip, rp, true)
 	p.k["R"] = DeriveSessionKey(secret, 7, ip, rp, false)
 	for _, e := range []string{"I", "R"} {
-		p.k[e].sendNonce = base
-		p.k[e].recvNonce = base
+		zzvSetCtr(p.k[e], "sendNonce", base)
+		zzvSetCtr(p.k[e], "recvNonce", base)
 	}
 	return p
+}
+
+// The counters are read and written through reflection so that the harness keeps compiling (and reports a
+// state mismatch instead of a build failure) if their integer width changes.
+func zzvCtrField(k *SessionKey, name string) reflect.Value {
+	f := reflect.ValueOf(k).Elem().FieldByName(name)
+	if !f.IsValid() {
+		panic("zzv: SessionKey has no field " + name)
+	}
+	return reflect.NewAt(f.Type(), unsafe.Pointer(f.UnsafeAddr())).Elem()
+}
+
+func zzvGetCtr(k *SessionKey, name string) uint64 {
+	f := zzvCtrField(k, name)
+	switch f.Kind() {
+	case reflect.Int, reflect.Int8, reflect.Int16, reflect.Int32, reflect.Int64:
+		return uint64(f.Int())
+	case reflect.Struct: // e.g. atomic.Uint64
+		if m := f.Addr().MethodByName("Load"); m.IsValid() {
+			return m.Call(nil)[0].Uint()
+		}
+	}
+	return f.Uint()
+}
+
+func zzvSetCtr(k *SessionKey, name string, v uint64) {
+	f := zzvCtrField(k, name)
+	switch f.Kind() {
+	case reflect.Int, reflect.Int8, reflect.Int16, reflect.Int32, reflect.Int64:
+		f.SetInt(int64(v))
+	case reflect.Struct:
+		if m := f.Addr().MethodByName("Store"); m.IsValid() {
+			m.Call([]reflect.Value{reflect.ValueOf(v)})
+			return
+		}
+		panic("zzv: cannot set counter field " + name)
+	default:
+		f.SetUint(v) // truncates silently when the field is narrower: shows up as a state mismatch
+	}
 }
 
 func other(e string) string {
@@ -101,8 +142,8 @@ func (p *zzvPair) state() zzvSessState {
 	s := zzvSessState{Send: map[string]uint64{}, Recv: map[string]uint64{}}
 	for e, k := range p.k {
 		k.mu.Lock()
-		s.Send[e] = p.abs(k.sendNonce)
-		s.Recv[e] = p.abs(k.recvNonce)
+		s.Send[e] = p.abs(zzvGetCtr(k, "sendNonce"))
+		s.Recv[e] = p.abs(zzvGetCtr(k, "recvNonce"))
 		k.mu.Unlock()
 	}
 	return s
@@ -472,4 +513,107 @@ func TestZZVSessionConc(t *testing.T) {
 		}
 	}
 	zzvEmit("summary", map[string]any{"sealed": total, "duplicates": dups, "goroutines": 2 * g, "rounds": rounds})
+}
+
+// ---- concurrent receivers (C01: each payload accepted at most once, also under concurrent delivery) --------
+
+// TestZZVSessionConcRecv: several goroutines hand copies of honest frames to ONE SessionKey at the same time.
+// Call / Ret events with a global sequence number are logged; TLC looks for a linearisation (TraceSession.tla).
+func TestZZVSessionConcRecv(t *testing.T) {
+	rounds := zzvEnvInt("ZZV_ROUNDS", 30)
+	g := zzvEnvInt("ZZV_G", 6)
+	nframes := zzvEnvInt("ZZV_FRAMES", 3)
+	size := zzvEnvInt("ZZV_SIZE", 256*1024)
+	maxc := uint64(1 << 20)
+	rng := mrand.New(mrand.NewSource(zzvSeed()))
+	w, done := zzvTraceWriter(t)
+	defer done()
+	calls, accepts := 0, 0
+	for r := 0; r < rounds; r++ {
+		base := uint64(0)
+		if r%2 == 1 {
+			base = ^uint64(0) - maxc
+		}
+		p := zzvNewPair(base, maxc, rng)
+		writeEv(w, zzvEv{"ev": "Reset"})
+		// sender I seals nframes large payloads (large = long AEAD open = wide race window)
+		type fr struct {
+			ctr uint64
+			ct  []byte
+			pt  []byte
+		}
+		var frames []fr
+		for i := 0; i < nframes; i++ {
+			pt := make([]byte, size)
+			rng.Read(pt)
+			ct, err := p.k["I"].Encrypt(pt)
+			if err != nil {
+				t.Fatal(err)
+			}
+			c := p.abs(binary.BigEndian.Uint64(ct[4:12]))
+			frames = append(frames, fr{c, ct, pt})
+			writeEv(w, zzvEv{"ev": "Seal", "e": "I", "dir": "I", "ctr": c})
+		}
+		type logrec struct {
+			seq  int64
+			call bool
+			id   int
+			ctr  uint64
+			res  string
+		}
+		var mu sync.Mutex
+		var seq int64
+		var log []logrec
+		start := make(chan struct{})
+		var wg sync.WaitGroup
+		// round kinds: all goroutines on the same frame / random frames
+		same := r%3 != 2
+		for i := 0; i < g; i++ {
+			f := frames[0]
+			if !same {
+				f = frames[rng.Intn(len(frames))]
+			}
+			wg.Add(1)
+			go func(id int, f fr) {
+				defer wg.Done()
+				in := append([]byte(nil), f.ct...)
+				<-start
+				mu.Lock()
+				seq++
+				log = append(log, logrec{seq, true, id, f.ctr, ""})
+				mu.Unlock()
+				pt, err := p.k["R"].Decrypt(in)
+				res := "accept"
+				if err != nil {
+					res = "reject"
+				} else if string(pt) != string(f.pt) {
+					res = "accept-wrong-plaintext"
+				}
+				mu.Lock()
+				seq++
+				log = append(log, logrec{seq, false, id, f.ctr, res})
+				mu.Unlock()
+			}(r*100+i, f)
+		}
+		close(start)
+		wg.Wait()
+		resOf := map[int]string{}
+		for _, x := range log {
+			if !x.call {
+				resOf[x.id] = x.res
+				if x.res == "accept" {
+					accepts++
+				}
+			}
+		}
+		for _, x := range log {
+			if x.call {
+				calls++
+				writeEv(w, zzvEv{"ev": "Call", "id": x.id, "e": "R", "dir": "I", "ctr": x.ctr, "res": resOf[x.id]})
+			} else {
+				writeEv(w, zzvEv{"ev": "Ret", "id": x.id, "res": x.res})
+			}
+		}
+	}
+	zzvEmit("summary", map[string]any{"rounds": rounds, "calls": calls, "accepts": accepts, "goroutines": g, "traces": rounds})
 }
